@@ -5,7 +5,7 @@
 //! A zero-sized registered value is never passed *as an argument* (that is
 //! C05's known defect, not C15's business): for `Tk0` the element is made
 //! inside the script by a registered `mk0()`.
-use super::{Elem, Op, Tk0, Tk24, nats, show_opt};
+use super::{Body, Elem, Op, Tk0, Tk24, nats, show_opt};
 use roto::{FileTree, List, NoCtx, RotoString, Runtime, TypedFunc, Val, library};
 
 pub const AVAILABLE: bool = true;
@@ -51,6 +51,20 @@ where
     ident: F<fn(List<T>) -> List<T>>,
     drop: F<fn(List<T>)>,
     join: Option<F<fn(List<T>, RotoString) -> RotoString>>,
+    for_rebind: F<fn(List<T>, List<T>, u64) -> List<T>>,
+    for_concat: F<fn(List<T>, List<T>, u64) -> List<T>>,
+    for_new: F<fn(List<T>, u64) -> List<T>>,
+    for_field: F<fn(List<T>, List<T>, u64) -> List<T>>,
+    for_push: ForPush<T>,
+    for_swap: F<fn(List<T>, List<T>, u64, u64, u64) -> List<T>>,
+}
+
+enum ForPush<T: Elem>
+where
+    T::Transformed: PartialEq,
+{
+    Arg(F<fn(List<T>, List<T>, u64, T) -> List<T>>),
+    Made(F<fn(List<T>, List<T>, u64) -> List<T>>),
 }
 
 fn source(t: &str, made: bool, string: bool) -> String {
@@ -88,6 +102,22 @@ fn source(t: &str, made: bool, string: bool) -> String {
     if string {
         s.push_str("fn s_join(l: List[String], sep: String) -> String { l.join(sep) }\n");
     }
+    // loops with a body: during iteration `k` the variable the loop is written over
+    // gets another handle, or a list is changed through the second variable
+    let lp = |body: &str| format!("let out = List.new(); let i = 0; for x in l {{ out.push(x); if i == k {{ {body} }} i = i + 1; }} out");
+    s.push_str(&format!("fn s_for_rebind(l: {l}, o: {l}, k: u64) -> {l} {{ {} }}\n", lp("l = o;")));
+    s.push_str(&format!("fn s_for_concat(l: {l}, o: {l}, k: u64) -> {l} {{ {} }}\n", lp("l = l + o;")));
+    s.push_str(&format!("fn s_for_new(l: {l}, k: u64) -> {l} {{ {} }}\n", lp("l = [];")));
+    s.push_str(&format!("record Holder {{ items: {l} }}\n"));
+    s.push_str(&format!(
+        "fn s_for_field(l: {l}, o: {l}, k: u64) -> {l} {{ let r = Holder {{ items: l }}; let out = List.new(); let i = 0; for x in r.items {{ out.push(x); if i == k {{ r.items = o; }} i = i + 1; }} out }}\n"
+    ));
+    if made {
+        s.push_str(&format!("fn s_for_push(l: {l}, o: {l}, k: u64) -> {l} {{ {} }}\n", lp("o.push(mk0());")));
+    } else {
+        s.push_str(&format!("fn s_for_push(l: {l}, o: {l}, k: u64, v: {t}) -> {l} {{ {} }}\n", lp("o.push(v);")));
+    }
+    s.push_str(&format!("fn s_for_swap(l: {l}, o: {l}, k: u64, a: u64, b: u64) -> {l} {{ {} }}\n", lp("o.swap(a, b);")));
     s
 }
 
@@ -133,6 +163,12 @@ where
         ident: f!("s_ident"),
         drop: f!("s_drop"),
         join: if string { Some(f!("s_join")) } else { None },
+        for_rebind: f!("s_for_rebind"),
+        for_concat: f!("s_for_concat"),
+        for_new: f!("s_for_new"),
+        for_field: f!("s_for_field"),
+        for_push: if made { ForPush::Made(f!("s_for_push")) } else { ForPush::Arg(f!("s_for_push")) },
+        for_swap: f!("s_for_swap"),
     }
 }
 
@@ -231,6 +267,22 @@ where
             let s = j.call(h(slots, *i), super::SEPS[*k].into());
             let s: &str = s.as_ref();
             super::show_str(s)
+        }
+        Op::ForDo(i, k, body) => {
+            let l = h(slots, *i);
+            let out = match body {
+                Body::Rebind(g) => f.for_rebind.call(l, h(slots, *g), *k),
+                Body::RebindConcat(g) => f.for_concat.call(l, h(slots, *g), *k),
+                Body::RebindNew => f.for_new.call(l, *k),
+                Body::RebindField(g) => f.for_field.call(l, h(slots, *g), *k),
+                Body::Push(g, v) => match &f.for_push {
+                    ForPush::Arg(p) => p.call(l, h(slots, *g), *k, T::make(*v)),
+                    ForPush::Made(p) => p.call(l, h(slots, *g), *k),
+                },
+                Body::Swap(g, a, b) => f.for_swap.call(l, h(slots, *g), *k, *a, *b),
+            };
+            let v: Vec<u64> = out.to_vec().iter().map(|x| x.val()).collect();
+            format!("v{}", nats(&v))
         }
     }
 }
